@@ -65,12 +65,13 @@ type FrameItem struct {
 }
 
 type Builder struct {
-	Kind       string        `json:"kind"` // keep | nil | frames | random | multi | flight | randflight
+	Kind       string        `json:"kind"` // keep | nil | frames | random | multi | flight | randflight | budget
 	Frames     []FrameItem   `json:"frames,omitempty"`
 	Random     *RF           `json:"random,omitempty"`
 	Multi      []RF          `json:"multi,omitempty"`
 	Flight     [][]FrameItem `json:"flight,omitempty"`
 	RandFlight []FlightDG    `json:"randflight,omitempty"`
+	Budget     *BudgetDesc   `json:"budget,omitempty"` // kind budget: a caller-written flight builder sized from the budgets it is offered
 }
 
 // Desc is a derived spec: a base parrot plus edits. Pointer / empty fields mean "keep the base's value".
@@ -93,6 +94,8 @@ type Desc struct {
 	Suppress    []uint64 `json:"suppress,omitempty"`
 	ExtraCH     int      `json:"extra_ch,omitempty"` // bytes of an extra (ignored) ClientHello extension: grows the flight
 	TPs         []TPDesc `json:"tps,omitempty"`      // when non-empty: replaces the base's transport parameter list
+	// Fit is set for exact-fit descriptions (Options.ExactFit): how builder and plans were sized against the pinned packet sizes
+	Fit *FitInfo `json:"fit,omitempty"`
 }
 
 // TPDesc describes one entry of a QUICTransportParametersExtension list.
@@ -129,7 +132,10 @@ func (t TPDesc) ToTLS() tls.TransportParameter {
 	case "disable_migration":
 		return &tls.DisableActiveMigration{}
 	case "iscid":
-		return tls.InitialSourceConnectionID{}
+		if len(t.V) > 0 {
+			return tls.InitialSourceConnectionID(t.V) // a pinned value: sent as it is
+		}
+		return tls.InitialSourceConnectionID{} // the typed placeholder: "if empty, will be set to the Connection ID used for the Initial packet"
 	case "dgram":
 		return tls.MaxDatagramFrameSize(t.N)
 	case "greasebit":
@@ -246,6 +252,8 @@ func (d Desc) Build() (*quic.QUICSpec, error) {
 				f.PerDatagram = append(f.PerDatagram, x)
 			}
 			ips.FrameBuilder = f
+		case "budget":
+			ips.FrameBuilder = &BudgetFlight{Desc: *b.Budget}
 		}
 	}
 	if d.ClearPlans {
@@ -319,11 +327,24 @@ type Options struct {
 	HeaderOnly  bool                      // only header-level knobs (no builder edits)
 	SuppressAny bool                      // also suppress flow-control / stream-count parameters
 	BigPN       bool                      // also draw first packet numbers near and beyond 2^62-1
+	// ExactFit: about 3 descriptions in 10 (rapid favours small draws) become exact-fit plans (flight builders / per-datagram plans that fill
+	// their pinned PacketSize exactly, one byte below, or - Desc.Fit.Mode "over" - one byte beyond). Needs CHLen.
+	ExactFit bool
 }
 
 // Gen draws a derived spec description. chLen must return the ClientHello length of (base, extra) — needed to
 // build QUICFrames layouts that tile the stream.
 func Gen(t *rapid.T, o Options) Desc {
+	d := gen(t, o)
+	// new dimensions draw after everything else, and only when asked for: the draws of the checks that share this
+	// generator keep their meaning
+	if o.ExactFit && !o.HeaderOnly && rapid.IntRange(0, 9).Draw(t, "exactfit") < 2 {
+		genExactFit(t, &d, o)
+	}
+	return d
+}
+
+func gen(t *rapid.T, o Options) Desc {
 	d := Desc{Base: rapid.SampledFrom(o.Bases).Draw(t, "base")}
 	if rapid.IntRange(0, 3).Draw(t, "unmodified") == 0 {
 		return d
@@ -610,9 +631,36 @@ func varintBytes(v uint64) []byte {
 // GenTPs draws a transport parameter list: typed standard parameters (values inside what a peer accepts), fake
 // parameters with arbitrary ids and with STANDARD ids in raw form, GREASE with fixed / drawn lengths and ids,
 // duplicates of unknown ids. initial_source_connection_id is always present (the peer requires it).
-func GenTPs(t *rapid.T, minN, maxN int) []TPDesc {
+func GenTPs(t *rapid.T, minN, maxN int) []TPDesc { return GenTPsOpt(t, minN, maxN, TPOptions{}) }
+
+// TPOptions widen the family GenTPs draws from.
+type TPOptions struct {
+	// RawStd: standard parameters also appear in raw form (tls.FakeQUICTransportParameter with a standard id) with
+	// values a typed parameter cannot express - empty, non-minimal varint encodings (RFC 9000 16 allows a value to be
+	// encoded on 1, 2, 4 or 8 bytes when it fits), arbitrary bytes - and initial_source_connection_id comes as the typed
+	// placeholder, typed with a value, raw and empty, or raw with a value. Lists drawn with this option are for checks
+	// that do not need a peer to accept them.
+	RawStd bool
+}
+
+// NonMinimalVarint encodes v on n bytes (2, 4 or 8; v must fit).
+func NonMinimalVarint(v uint64, n int) []byte {
+	b := make([]byte, n)
+	for i := n - 1; i >= 0; i-- {
+		b[i] = byte(v)
+		v >>= 8
+	}
+	b[0] |= map[int]byte{1: 0x00, 2: 0x40, 4: 0x80, 8: 0xc0}[n]
+	return b
+}
+
+// GenTPsOpt is GenTPs with options (the zero options draw exactly what GenTPs draws).
+func GenTPsOpt(t *rapid.T, minN, maxN int, o TPOptions) []TPDesc {
 	n := rapid.IntRange(minN, maxN).Draw(t, "ntps")
 	kinds := []string{"idle", "maxdata", "bidi_local", "bidi_remote", "uni", "streams_bidi", "streams_uni", "ack_delay", "udp", "cidlimit", "disable_migration", "dgram", "greasebit", "versioninfo", "grease", "grease", "fake", "fake", "fake-std"}
+	if o.RawStd {
+		kinds = append(kinds, "raw-std", "raw-std", "raw-std", "raw-std")
+	}
 	used := map[string]bool{}
 	var out []TPDesc
 	for len(out) < n {
@@ -648,6 +696,35 @@ func GenTPs(t *rapid.T, minN, maxN int) []TPDesc {
 			v := map[uint64]uint64{0x01: 30000, 0x03: 1472, 0x04: 1 << 20, 0x05: 65536, 0x06: 65536, 0x07: 65536, 0x08: 16, 0x09: 16, 0x0b: 25, 0x0e: 4, 0x20: 1200}[d.ID]
 			d.V = varintBytes(v)
 			k = fmt.Sprintf("std-%d", d.ID)
+		case "raw-std":
+			// a standard id in raw form with a value only the raw form can pin. Server-only parameters (0x00, 0x02,
+			// 0x0d, 0x10) are left out; 0x0f is drawn below.
+			d.K = "fake"
+			d.ID = rapid.SampledFrom([]uint64{0x01, 0x03, 0x04, 0x05, 0x06, 0x07, 0x08, 0x09, 0x0a, 0x0b, 0x0c, 0x0e, 0x20, 0x2ab2}).Draw(t, "rid")
+			switch rapid.SampledFrom([]string{"empty", "min", "nonmin", "nonmin", "nonmin", "bytes"}).Draw(t, "rform") {
+			case "empty":
+				d.V = []byte{}
+			case "min":
+				d.V = varintBytes(rapid.SampledFrom([]uint64{0, 1, 3, 63, 64, 1200, 16383, 16384, 1 << 20, 1<<30 - 1, 1 << 30, 1<<62 - 1}).Draw(t, "rv"))
+			case "nonmin":
+				v := rapid.SampledFrom([]uint64{0, 1, 2, 3, 25, 63, 64, 100, 1200, 16383, 16384, 65536, 1 << 20, 1<<30 - 1}).Draw(t, "rv")
+				var lens []int
+				for _, l := range []int{2, 4, 8} {
+					if l > len(varintBytes(v)) {
+						lens = append(lens, l)
+					}
+				}
+				d.V = NonMinimalVarint(v, rapid.SampledFrom(lens).Draw(t, "rlen"))
+			case "bytes":
+				d.V = rapid.SliceOfN(rapid.Byte(), 1, 9).Draw(t, "rbytes")
+			}
+			k = fmt.Sprintf("std-%d", d.ID)
+			if d.ID == 0x0c {
+				k = "disable_migration"
+			}
+			if d.ID == 0x2ab2 {
+				k = "greasebit"
+			}
 		}
 		// standard parameters at most once (a duplicate makes the peer reject the handshake); unknown ids may repeat
 		key := k
@@ -663,6 +740,17 @@ func GenTPs(t *rapid.T, minN, maxN int) []TPDesc {
 		out = append(out, d)
 	}
 	pos := rapid.IntRange(0, len(out)).Draw(t, "iscid-pos")
-	out = append(out[:pos:pos], append([]TPDesc{{K: "iscid"}}, out[pos:]...)...)
+	iscid := TPDesc{K: "iscid"}
+	if o.RawStd {
+		switch rapid.SampledFrom([]string{"typed-empty", "typed-empty", "typed-value", "raw-empty", "raw-empty", "raw-empty", "raw-value"}).Draw(t, "iscid-form") {
+		case "typed-value":
+			iscid.V = rapid.SliceOfN(rapid.Byte(), 1, 20).Draw(t, "iscid-val")
+		case "raw-empty":
+			iscid = TPDesc{K: "fake", ID: 0x0f, V: []byte{}}
+		case "raw-value":
+			iscid = TPDesc{K: "fake", ID: 0x0f, V: rapid.SliceOfN(rapid.Byte(), 1, 24).Draw(t, "iscid-val")}
+		}
+	}
+	out = append(out[:pos:pos], append([]TPDesc{iscid}, out[pos:]...)...)
 	return out
 }
